@@ -131,6 +131,12 @@ SearcherLists == {<<"C">>, <<"F", "P">>, <<"N", "P", "F">>, <<"P", "N">>, <<>>, 
 SandboxNext ==
     \/ \E k \in {"nil", "num", "loaded"} : Do([op |-> "glob", n |-> "package", kind |-> k])
     \/ \E how \in {"replace", "inplace"}, l \in SearcherLists : Do([op |-> "loaders", n |-> "package", how |-> how, list |-> l])
+    \* entries of package.loaded removed: "package" itself, or all of them (hot reload)
+    \/ st.loaded["package"] # Nil /\ Do([op |-> "clear", n |-> "package"])
+    \/ Do([op |-> "clearall", n |-> "package"])
+    \* a metatable on the table of globals; module()-style loaders and RegisterModule of user modules
+    \/ \E k \in {"strict", "fallback", "none"} : Do([op |-> "gmeta", n |-> "package", kind |-> k])
+    \/ \E n \in UNS : Do([op |-> "register", n |-> n, f |-> "f1"])
 
 Next ==
     /\ Len(hist) < MaxHist
@@ -166,9 +172,10 @@ CacheHit ==
 (* every library the host opened is reachable through require and through   *)
 (* its global name, whatever the order in which things were opened           *)
 HostReachable ==
-    \A n \in NS \cap {"string", "table", "package"} : (n \in st.opened /\ Ready(st)) =>
+    \* (sandbox histories assign the global and un-load the library on purpose)
+    \A n \in NS \cap {"string", "table", "package"} : (~Sandbox /\ n \in st.opened /\ Ready(st)) =>
         /\ IsTbl(st, st.loaded[n]) /\ DoRequire(Clr(st), n).res = Ok(st.loaded[n])
-        /\ Sandbox \/ st.loaded[n] = st.glob[n]        \* (sandbox histories assign the global on purpose)
+        /\ st.loaded[n] = st.glob[n]
 
 (* the mark of a loader in progress / failed makes require fail, not load   *)
 SentinelIsLoop ==
@@ -184,9 +191,10 @@ Found(n) == FindLoader(st, n)
 (* and luaL_register over a non-table                                            *)
 CacheStable ==
     \A n \in NS : (Truthy(st.loaded[n]) /\ st.loaded[n] # Sent /\ st'.loaded[n] # st.loaded[n]) =>
-        /\ Op.n = n
-        /\ Op.op \in {"clear", "register"}
-        /\ Op.op = "register" => ~IsTbl(st, st.loaded[n])
+        \/ Op.op = "clearall"
+        \/ /\ Op.n = n
+           /\ Op.op \in {"clear", "register"}
+           /\ Op.op = "register" => ~IsTbl(st, st.loaded[n])
 
 ResultIsCached == (IsReq /\ res'[1] = "ok") => st'.loaded[Op.n] = res'[2]
 
@@ -305,6 +313,20 @@ GlobalPackageIrrelevant ==
                           b == DoRequire(Clr(st'), n)
                       IN a.res = b.res /\ a.st.loaded = b.st.loaded /\ a.st.log = b.st.log
 
+(* removing package.loaded["package"] (or everything) only un-loads: require  *)
+(* of any other module behaves as it would have; a metatable on the globals   *)
+(* changes nothing for require, module() and luaL_register (raw accesses)     *)
+SameRequire(a, b, n) == LET x == DoRequire(Clr(a), n)
+                            y == DoRequire(Clr(b), n)
+                        IN x.res = y.res /\ x.st.log = y.st.log /\ x.st.glob = y.st.glob
+UnloadingPackageIrrelevant ==
+    (Op.op = "clear" /\ Op.n = "package") => \A n \in UNS : SameRequire(st, st', n)
+ClearAllOnlyUnloads ==
+    Op.op = "clearall" => \A n \in NS : SameRequire([st EXCEPT !.loaded = [m \in DOMAIN @ |-> Nil]], st', n)
+GlobalsMetatableIrrelevant ==
+    (Op.op = "gmeta" /\ Op.kind # "fallback") =>
+        \A n \in UNS : SameRequire(st, st', n) /\ Register(Clr(st), n, "f1").res = Register(Clr(st'), n, "f1").res
+
 SelfLoop ==
     (IsReq /\ Falsy(Op.n) /\ Found(Op.n).kind = "found") =>
         LET ld == Found(Op.n).ld
@@ -337,6 +359,7 @@ StepLaws == /\ CacheStable /\ ResultIsCached /\ SentinelOnlyAfterFailure /\ Fail
             /\ PreloadFirst /\ PathOrder /\ DecoyNeverLoaded /\ NothingMeansTrue /\ ReturnedValueWins /\ SelfLoop /\ MutualLoop
             /\ RegisterReachable /\ ModuleResultIsGlobalTable /\ UnloadReloads /\ OpenKeepsLoaded
             /\ SearchersObeyed /\ GlobalPackageIrrelevant
+            /\ UnloadingPackageIrrelevant /\ ClearAllOnlyUnloads /\ GlobalsMetatableIrrelevant
 Laws == [][StepLaws]_vars
 
 (* ---- GEN ------------------------------------------------------------------- *)
